@@ -19,3 +19,5 @@ func RotateAll(base []config.ClokiBaseDataBase, l qlogger.ILogger) error {
 }
 
 func portCHEnv(cfg *clconfig.ClokiConfig) error { return errors.New("glue not generated") }
+
+func initDB(cfg *clconfig.ClokiConfig) { panic("glue not generated") }
